@@ -179,7 +179,7 @@ def _collected_classes(prog, fi: FuncInfo) -> set[str]:
     return out
 
 
-def _defensive(prog, fi: FuncInfo, node: ast.Raise, cls: str) -> Optional[str]:
+def _defensive(prog, fi: FuncInfo, node: ast.Raise, cls: str, ctx=None) -> Optional[str]:
     """A raise is an internal-invariant guard (not a failure stage of a rule) when it re-checks what
     the dispatching caller already established: it is dominated by a failed isinstance() test on the
     condition value, or sits in the default case of a class dispatcher."""
@@ -199,6 +199,15 @@ def _defensive(prog, fi: FuncInfo, node: ast.Raise, cls: str) -> Optional[str]:
                 return "default case of the closed class dispatcher (C01.R1 proves totality)"
         if anc is fi.node:
             break
+    # the fall-through of a value-class dispatcher written as a table or an if-chain: no class of the hierarchy reaches it
+    if ctx is not None and cls == "TypeError" and fi.name in ("convert_condition_field_eq_val", "convert_condition_val") and fi.cls is not None:
+        from . import c01
+        try:
+            mp, default = c01.dispatch_map(ctx, fi.qual)
+        except AnalysisError:
+            return None
+        if default == "raise TypeError" and not any(h.startswith("default") or h == "raise TypeError" for t, h in mp.items() if not t.endswith("Mixin") and t != "SigmaType"):
+            return "fall-through of the closed class dispatcher: no value class of the hierarchy reaches it (interpreted, C01.R1)"
     return None
 
 
@@ -237,7 +246,7 @@ def r2_only_sigma_errors(ctx) -> None:
                     r.ok("C08.R2", q, f"raise {bare} caught locally by except {unparse(h.type) if h.type else ''} [from {root.rsplit('.', 1)[-1]}]", loc)
                 elif bare in collected:
                     r.ok("C08.R2", q, f"raise {bare}: recorded and contained by {root.rsplit('.', 1)[-1]} in collecting mode", loc)
-                elif (why := _defensive(prog, fi, node, bare)) is not None:
+                elif (why := _defensive(prog, fi, node, bare, ctx)) is not None:
                     r.ok("C08.R2", q, f"raise {bare} — internal invariant: {why}", loc)
                 elif (q, txt) in DEFENSIVE_TABLE:
                     r.ok("C08.R2", q, f"raise {bare} — internal invariant: {DEFENSIVE_TABLE[(q, txt)]}", loc)
